@@ -347,7 +347,12 @@ def matrix_solve(M, b, method='default'):
 
     if method == 'DM':
         try:
-            sol_num, sol_den = M.to_DM().solve_den(b.to_DM())
+            dM, db = M.to_DM(), b.to_DM()
+            if dM.domain.is_EXRAW or db.domain.is_EXRAW:
+                # Zero testing is unreliable in the raw expression domain
+                # (unexpanded zero pivots); invert M instead.
+                raise ValueError('EXRAW domain')
+            sol_num, sol_den = dM.solve_den(db)
             x = (sol_num.to_field() / sol_den).to_Matrix()
         except:
             # Fallback
